@@ -41,8 +41,9 @@ func (sc *Scenario) runAgent(limit int) (got []*gpb.SubscribeResponse, ended boo
 	if perr != nil {
 		return nil, false, "address: " + perr.Error(), nil
 	}
-	conn, cerr := grpc.NewClient(net.JoinHostPort("127.0.0.1", port),
+	conn, cerr := grpc.NewClient("passthrough:///"+net.JoinHostPort("127.0.0.1", port),
 		grpc.WithTransportCredentials(insecure.NewCredentials()),
+		grpc.WithNoProxy(),
 		grpc.WithDefaultCallOptions(grpc.MaxCallRecvMsgSize(64<<20)))
 	if cerr != nil {
 		return nil, false, "dial: " + cerr.Error(), nil
